@@ -151,17 +151,21 @@ def finite(rows):
 MAX_CRASHES = 4
 
 
-def run_impl(ctx, exe, cases, timeout=300, env=None):
+def run_impl(ctx, exe, cases, timeout=900, env=None, chunk=240):
     """cases: list of command strings WITHOUT the id (first word = command); the id is inserted.
-    Returns list aligned with cases: token list after 'R <id>', {'crash': text}, or {'skipped': True} for
-    the commands that were not run any more because the driver had already aborted / hung MAX_CRASHES
-    times in this batch (a library that hangs on everything must not cost 20 s per command)."""
+    Returns list aligned with cases: token list after 'R <id>', {'crash': text}, or {'skipped': True}.
+    The commands are fed in chunks to fresh processes.  A call that hangs trips the in-process watchdog
+    (10 s) and is reported as a crash of THAT command; the outer timeout of a whole chunk can only mean a
+    slow machine and is never turned into a verdict (the rest of the chunk is marked skipped).  After
+    MAX_CRASHES aborts the remaining commands are not run (a library that hangs on everything must not
+    cost 10 s per command)."""
     results = [None] * len(cases)
     start = 0
     crashes = 0
     while start < len(cases) and crashes < MAX_CRASHES:
+        end = min(len(cases), start + chunk)
         text = []
-        for k, c in enumerate(cases[start:]):
+        for k, c in enumerate(cases[start:end]):
             head, _, rest = c.partition(" ")
             text.append("%s %d %s" % (head, k, rest))
         r = ctx.run(exe, "\n".join(text) + "\n", timeout=timeout, env=env)
@@ -173,20 +177,29 @@ def run_impl(ctx, exe, cases, timeout=300, env=None):
                     cur = start + int(w[1])
                 except ValueError:
                     cur = None
-            elif len(w) >= 2 and w[0] == "R" and cur is not None and cur < len(cases):
+            elif len(w) >= 2 and w[0] == "R" and cur is not None and cur < end:
                 results[cur] = w[2:]
-            elif len(w) >= 2 and w[0] == "T" and cur is not None and cur < len(cases):
+            elif len(w) >= 2 and w[0] == "T" and cur is not None and cur < end:
                 results[cur] = {"crash": "hang: the in-process watchdog fired"}
         if r.rc == 0 and not r.timed_out:
-            break
+            start = end
+            continue
+        if r.timed_out:
+            for t in range(start, end):
+                if results[t] is None:
+                    results[t] = {"skipped": True}
+            ctx.note("a chunk of %d driver commands did not finish within %d s (slow machine); %d commands skipped"
+                     % (end - start, timeout, sum(1 for t in range(start, end) if skipped(results[t]))))
+            start = end
+            continue
         crashes += 1
         if cur is None:
             cur = start
-        if cur >= len(cases):
-            break
+        if cur >= end:
+            start = end
+            continue
         if results[cur] is None:
-            results[cur] = {"crash": (r.sanitizer or ("timeout" if r.timed_out else "") or r.err[-600:]
-                                      or "rc=%d" % r.rc)}
+            results[cur] = {"crash": (r.sanitizer or r.err[-600:] or "rc=%d" % r.rc)}
         start = cur + 1
     for i, x in enumerate(results):
         if x is None:
@@ -1214,8 +1227,8 @@ def budgets(ctx, factor=1):
     if ctx.quick:
         return {"exact": 240 * factor, "assembly": 40 * factor, "meta": 400 * factor, "history": 40 * factor,
                 "nbr": 200 * factor}
-    return {"exact": 3000 * factor, "assembly": 600 * factor, "meta": 4000 * factor, "history": 300 * factor,
-            "nbr": 3000 * factor}
+    return {"exact": 2000 * factor, "assembly": 300 * factor, "meta": 3000 * factor, "history": 200 * factor,
+            "nbr": 2000 * factor}
 
 
 def generate(rng, b):
